@@ -71,12 +71,57 @@ def meth_files():
     return m
 
 
+# Bytecodes that read and write nothing but the executing frame's own value stack, fast locals and constants, or only move
+# its instruction pointer: no other thread can observe them, and they observe nothing of another thread. Pre-empting a
+# thread right before such a bytecode is indistinguishable from pre-empting it right before the next bytecode that is NOT
+# of this kind, so they are not scheduling points (every other bytecode of the watched code objects is one).
+FRAME_LOCAL_OPS = frozenset([
+    "RESUME", "NOP", "CACHE", "EXTENDED_ARG", "POP_TOP", "PUSH_NULL", "COPY", "SWAP", "LOAD_CONST", "LOAD_FAST",
+    "LOAD_FAST_CHECK", "LOAD_FAST_AND_CLEAR", "STORE_FAST", "DELETE_FAST", "JUMP_FORWARD", "JUMP_BACKWARD",
+    "JUMP_BACKWARD_NO_INTERRUPT", "POP_JUMP_IF_TRUE", "POP_JUMP_IF_FALSE", "POP_JUMP_IF_NONE", "POP_JUMP_IF_NOT_NONE",
+    "KW_NAMES", "MAKE_CELL", "COPY_FREE_VARS", "PUSH_EXC_INFO", "POP_EXCEPT",
+])
+
+
+def _local_offsets(code):
+    import dis
+    return frozenset(i.offset for i in dis.get_instructions(code) if i.opname in FRAME_LOCAL_OPS)
+
+
 def _nested_codes(code, acc):
     acc.add(code)
     for c in code.co_consts:
         if hasattr(c, "co_code") and c not in acc:
             _nested_codes(c, acc)
     return acc
+
+
+class CoopLock:
+    """Stand-in for `Process._lock` (a threading.RLock) that never blocks the OS thread while the explorer holds the
+    other threads parked: a failed non-blocking acquire hands the baton back to the controller (the thread is
+    'waiting for the lock') and retries when it is granted again. Re-entrant like the lock it wraps."""
+
+    def __init__(self, ex, real):
+        self.ex = ex
+        self.real = real
+
+    def __enter__(self):
+        while not self.real.acquire(blocking=False):
+            self.ex._blocked()
+        return self
+
+    def __exit__(self, *a):
+        self.real.release()
+
+    def acquire(self, blocking=True, timeout=-1):
+        while not self.real.acquire(blocking=False):
+            if not blocking:
+                return False
+            self.ex._blocked()
+        return True
+
+    def release(self):
+        self.real.release()
 
 
 class Explorer:
@@ -97,6 +142,7 @@ class Explorer:
             f = getattr(self.ps._psplatform.Process, nm, None)
             if f is not None:
                 self.watched.add(f.__code__)
+        self.local_offsets = {c: _local_offsets(c) for c in self.watched}
 
     # ---- worker side -------------------------------------------------------------------
     def _tracer(self, frame, event, arg):
@@ -106,7 +152,7 @@ class Explorer:
         return None
 
     def _local(self, frame, event, arg):
-        if event == "opcode" and not self.free:
+        if event == "opcode" and not self.free and frame.f_lasti not in self.local_offsets[frame.f_code]:
             self._point()
         return self._local
 
@@ -124,11 +170,26 @@ class Explorer:
         self.go[tid].wait()
         self.go[tid].clear()
 
+    def _blocked(self):
+        """called by CoopLock in a worker thread whose acquire failed"""
+        tid = self.tids.get(threading.get_ident())
+        if tid is None or self.free:
+            import time
+            time.sleep(0.0002)
+            return
+        self.lock_waits += 1
+        self.blocked[tid] = True
+        self.parked[tid] = True
+        self.ctrl.set()
+        self.go[tid].wait()
+        self.go[tid].clear()
+        self.blocked[tid] = False
+
     def _bump(self):
         self.version += 1
         for f in self.files:
             self.impl.ver[f] = self.version
-            self.impl._write(f)
+            self.impl.dirty.add(f)           # written right before the implementation opens it (Impl._open)
 
     def _meth(self, item):
         return self.meths[item[1]][0] if isinstance(item[1], int) else item[1]
@@ -139,7 +200,7 @@ class Explorer:
             for it in pr:
                 if it[0] == "call":
                     fs.update(self.mfiles.get(self._meth(it), []))
-                elif it[0] == "asdict":
+                elif it[0] in ("asdict", "piter"):
                     for n in it[1]:
                         fs.update(self.mfiles.get(n, []))
         return sorted(fs)
@@ -165,9 +226,19 @@ class Explorer:
                     o = dict(self.impl.outcome(meth, getattr(self.impl.p, meth)), meth=meth)
                     out.append(o)
                     log.append(("call", v0, self.version, o, len(cms)))
-                elif item[0] == "asdict":
+                elif item[0] in ("asdict", "piter"):
                     try:
-                        d = self.impl.p.as_dict(attrs=list(item[1]))
+                        if item[0] == "piter":
+                            # psutil.process_iter(attrs=…): the Process objects of its module-level cache are SHARED
+                            # between the threads that iterate; as_dict() runs on the shared object
+                            d = None
+                            for pr in self.ps.process_iter(attrs=list(item[1])):
+                                if pr is self.impl.p:
+                                    d = pr.info
+                            if d is None:
+                                raise RuntimeError("process_iter() did not yield the cached Process object")
+                        else:
+                            d = self.impl.p.as_dict(attrs=list(item[1]))
                         vals = {}
                         for n, v in d.items():
                             try:
@@ -213,6 +284,9 @@ class Explorer:
                             o = {"kind": "exc", "exc": type(e).__name__, "at": "exit"}
                             out.append(o)
                     log.append(("exit", v0, self.version, o, len(cms)))
+        except BaseException as e:  # noqa: BLE001
+            out.append({"kind": "exc", "exc": type(e).__name__, "at": "worker"})
+            log.append(("call", self.version, self.version, out[-1], len(cms)))
         finally:
             sys.settrace(None)
             self.done[tid] = True
@@ -236,7 +310,12 @@ class Explorer:
 
     def run(self, progs, plan):
         """plan: list of (tid, n|None). Returns (results per thread, logs per thread, points per thread, problem)."""
-        self.impl.reset()
+        self.impl.reset_light()
+        # cooperative stand-in for the object's RLock; the object is also what process_iter() has cached
+        self.impl.p._lock = CoopLock(self, self.impl.p._lock)
+        self.ps._pmap[self.impl.p.pid] = self.impl.p
+        self.lock_waits = 0
+        self.blocked = {t: False for t in range(len(progs))}
         self.version = 0
         self.free = False
         self.files = self._files_of(progs)
@@ -258,8 +337,20 @@ class Explorer:
                     self.ctrl.clear()
             for tid, n in plan:
                 self._grant(tid, n)
-            for tid in range(len(progs)):
-                self._grant(tid, None)
+            # everybody to completion; a thread waiting for the lock is retried after the others have moved
+            pending = [t for t in range(len(progs)) if not self.done[t]]
+            while pending and problem is None:
+                progressed = False
+                for t in list(pending):
+                    before = self.npoints[t]
+                    self._grant(t, None)
+                    if self.done[t]:
+                        pending.remove(t)
+                        progressed = True
+                    elif self.npoints[t] > before:
+                        progressed = True
+                if not progressed:
+                    problem = "deadlock: threads %r all wait for Process._lock and none of them can move" % pending
         except c16_sched.Drift as e:
             problem = str(e)
         finally:
@@ -273,7 +364,8 @@ class Explorer:
                 problem = (problem or "") + " [a worker thread did not terminate]"
         return ({str(t): self.results.get(t, []) for t in range(len(progs))},
                 {t: self.log.get(t, []) for t in range(len(progs))},
-                {"n": dict(self.npoints), "items": {t: list(v) for t, v in self.item_points.items()}}, problem)
+                {"n": dict(self.npoints), "items": {t: list(v) for t, v in self.item_points.items()},
+                 "lock_waits": self.lock_waits}, problem)
 
 
 def _bad_outcome(who, kind, o):
@@ -290,65 +382,79 @@ def _bad_outcome(who, kind, o):
     return None
 
 
-def judge(logs, stats=None):
-    """Returns a description of the first violated clause, or None. Thread 0 is the block owner, every other thread a
-    plain caller. `stats` (a dict) collects things that are counted, not judged."""
-    for who in sorted(logs):
-        for kind, v0, v1, o, depth in logs[who]:
-            why = _bad_outcome(who, kind, o)
-            if why:
-                return why
-    a = logs.get(0, [])
-    # A's outermost blocks: (entry version, exit version); nested enter/exit pairs change nothing
-    blocks = []
-    cur = None          # version current when the open outermost block was entered
-    nest = 0
-    first = {}          # method -> first version it returned in the open outermost block
-    for kind, v0, v1, o, depth in a:
+def _blocks_of(log):
+    """outermost blocks of one thread: [(entry version, exit version)]; an as_dict()/process_iter(attrs) call outside any
+    block is a block of its own; nested enter/exit pairs change nothing"""
+    blocks, cur, nest = [], None, 0
+    for kind, v0, v1, o, depth in log:
         if kind == "enter" and o is None:
             if nest == 0:
                 cur = v0
-                first = {}
             nest += 1
         elif kind == "exit" and nest > 0:
             nest -= 1
             if nest == 0:
                 blocks.append((cur, v1))
                 cur = None
-        elif kind == "call" and o and o.get("kind") == "ok":
-            val = o["value"][0]
-            lo = cur if cur is not None else v0
-            if val is not None and not (lo <= val <= v1):
-                return ("thread 0: a call %s a block entered at version %d returned version %d at version %d"
-                        % ("inside" if cur is not None else "outside (fresh-after-exit clause)", lo, val, v1))
-            if cur is not None and val is not None and stats is not None:
-                m = o.get("meth")
-                if m in first and first[m] != val:
-                    stats["owner_value_replaced_in_block"] = stats.get("owner_value_replaced_in_block", 0) + 1
-                first.setdefault(m, val)
-        elif kind == "asdict" and o and o.get("kind") == "dict":
-            lo = cur if cur is not None else v0
-            if cur is None:
-                blocks.append((v0, v1))          # as_dict() is a block of its own
-            for n, v in sorted(o["values"].items()):
-                if v and v[0] is not None and not (lo <= v[0] <= v1):
-                    return ("thread 0: as_dict()[%r] returned version %d, not read during the call/block (versions %d..%d)"
-                            % (n, v[0], lo, v1))
+        elif kind == "asdict" and cur is None:
+            blocks.append((v0, v1))
     if cur is not None:
         blocks.append((cur, 10 ** 9))
+    return blocks
+
+
+def judge(logs, stats=None):
+    """Returns a description of the first violated clause, or None. Every thread may own blocks (explicit oneshot()
+    blocks, as_dict(), process_iter(attrs)); a call made outside the caller's own blocks is a plain call. `stats` (a dict)
+    collects things that are counted, not judged."""
     for who in sorted(logs):
-        if who == 0:
-            continue
         for kind, v0, v1, o, depth in logs[who]:
-            if kind == "call" and o and o.get("kind") == "ok":
+            why = _bad_outcome(who, kind, o)
+            if why:
+                return why
+    blocks = {who: _blocks_of(logs[who]) for who in logs}
+    for who in sorted(logs):
+        others = [b for w, bs in blocks.items() if w != who for b in bs]
+        cur = None          # version current when the open outermost block of `who` was entered
+        nest = 0
+        first = {}          # method -> first version it returned in the open outermost block
+        for kind, v0, v1, o, depth in logs[who]:
+            if kind == "enter" and o is None:
+                if nest == 0:
+                    cur = v0
+                    first = {}
+                nest += 1
+            elif kind == "exit" and nest > 0:
+                nest -= 1
+                if nest == 0:
+                    cur = None
+            elif kind == "call" and o and o.get("kind") == "ok":
                 val = o["value"][0]
-                lo = v0
-                for (e0, e1) in blocks:
-                    if e0 <= v1 and e1 >= v0:          # the block overlapped this call
-                        lo = min(lo, e0)
+                if cur is not None:
+                    lo, what = cur, "inside a block entered at version %d" % cur
+                else:
+                    # plain call: from the call's duration, or (recorded finding C16-xthread-hit-predates-call) from a
+                    # block of ANOTHER thread that overlapped the call
+                    lo = v0
+                    for (e0, e1) in others:
+                        if e0 <= v1 and e1 >= v0:
+                            lo = min(lo, e0)
+                    what = "outside its own blocks during versions %d..%d (allowed from %d)" % (v0, v1, lo)
                 if val is not None and not (lo <= val <= v1):
-                    return ("thread %d: a plain call made during versions %d..%d returned version %d (allowed from %d)"
-                            % (who, v0, v1, val, lo))
+                    return "thread %d: a call %s returned version %d at version %d" % (who, what, val, v1)
+                if cur is not None and val is not None and stats is not None:
+                    m = o.get("meth")
+                    if m in first and first[m] != val:
+                        stats["owner_value_replaced_in_block"] = stats.get("owner_value_replaced_in_block", 0) + 1
+                    first.setdefault(m, val)
+                if cur is None and val is not None and val < v0 and stats is not None:
+                    stats["plain_value_predates_call"] = stats.get("plain_value_predates_call", 0) + 1
+            elif kind == "asdict" and o and o.get("kind") == "dict":
+                lo = cur if cur is not None else v0
+                for n, v in sorted(o["values"].items()):
+                    if v and v[0] is not None and not (lo <= v[0] <= v1):
+                        return ("thread %d: as_dict()[%r] returned version %d, not read during the call/block (versions %d..%d)"
+                                % (who, n, v[0], lo, v1))
     return None
 
 
@@ -379,6 +485,18 @@ PROGS2 = [
     ("two_level", "owner_one_caller_two_level", [[["enter"], ["call", "name"], ["exit"], ["enter"], ["call", "cpu_times"],
                                                   ["exit"]], [["call", "cpu_times"]]]),
     ("three_threads", "two_plain_callers", [[["enter"], ["call", "name"], ["exit"]], [["call", "name"]], [["call", "cpu_times"]]]),
+    # ---- the lock: as_dict() / oneshot() from a second thread while a block is open WAITS (Process._lock is taken for the
+    # whole block); two threads on one shared object (process_iter()'s cached Process objects) serialise; nobody deadlocks
+    ("lock_wait", "asdict_in_other_block", [[["enter"], ["call", "name"], ["call", "cpu_times"], ["exit"], ["call", "name"]],
+                                            [["asdict", ["name", "cpu_times"]]]]),
+    ("lock_wait", "asdict_both_shared", [[["asdict", ["name", "cpu_times", "ppid"]], ["call", "name"]],
+                                         [["asdict", ["name", "cpu_times"]]]]),
+    ("lock_wait", "block_both", [[["enter"], ["call", "name"], ["exit"], ["call", "name"]],
+                                 [["enter"], ["call", "name"], ["call", "name"], ["exit"]]]),
+    ("lock_wait", "nested_asdict_vs_asdict", [[["enter"], ["asdict", ["name", "uids"]], ["call", "name"], ["exit"]],
+                                              [["asdict", ["name", "uids"]], ["call", "uids"]]]),
+    ("lock_wait", "process_iter_two_threads", [[["piter", ["name", "cpu_times"]]], [["piter", ["name", "ppid"]]]]),
+    ("three_threads", "three_asdict", [[["asdict", ["name", "cpu_times"]]], [["asdict", ["name"]]], [["call", "name"]]]),
 ]
 
 
@@ -445,13 +563,16 @@ def _explore_program(ctx, res, ex, family, pname, progs, target, full, budget, s
             pl = three + ctx.rng.sample(two, max(0, cap - len(three)))
             exhaustive = False
     else:
-        pl = plans3(n, full, ctx.rng, budget)
+        pl = plans3(n, full, ctx.rng, budget, cap=cap or 2500)
         exhaustive = False
     total, found = 0, False
     stats = {}
     for plan in pl:
-        out, logs, _, prob = ex.run(progs, plan)
+        out, logs, pts, prob = ex.run(progs, plan)
         total += 1
+        if pts.get("lock_waits"):
+            res.count("preempt:lock_waits", pts["lock_waits"])
+            res.count("preempt:schedules_with_a_lock_wait")
         res.count("preempt:%s:%s:%d-switch" % (family, pname, len(plan) - len(progs)))
         res.case(("preempt", family, pname, plan), nontrivial=all(k is None or k > 0 for _, k in plan))
         before = stats.get("owner_value_replaced_in_block", 0)
@@ -472,6 +593,11 @@ def _explore_program(ctx, res, ex, family, pname, progs, target, full, budget, s
         fid = c16_sched.FINDING_OVERWRITE          # region of the recorded finding: counted, not reported
         res.known_seen[fid] = res.known_seen.get(fid, 0) + stats["owner_value_replaced_in_block"]
     return total, found, exhaustive
+
+
+# thorough tier: plans per program of PROGS2 (all three-pre-emption plans first, the rest sampled); the three original
+# programs (PROGS, both cache levels) are always enumerated completely
+THOROUGH_CAP_NEW = 600
 
 
 def explore(ctx, res, full=False, budget=400):
@@ -505,13 +631,19 @@ def explore(ctx, res, full=False, budget=400):
             ex = Explorer(impl, None)
             for family, pname, progs in PROGS2:
                 n, found, e = _explore_program(ctx, res, ex, family, pname, progs, None, full, max(12, budget // 4), search,
-                                               cap=400 if search else 2500)
+                                               cap=400 if search else THOROUGH_CAP_NEW)
                 total += n
                 (exh if e else sampled).append(pname)
                 if found and search:
                     break
         res.extra["preempt_schedules"] = res.extra.get("preempt_schedules", 0) + total
         res.extra["preempt_programs"] = len(PROGS) * 2 + len(PROGS2)
+        res.extra["preempt_budget"] = ("scheduling points = every bytecode of the watched code objects that is not frame-local "
+                                       "(FRAME_LOCAL_OPS); quick: %d+%d sampled plans per original program and cache level, "
+                                       "%d (+ as many three-pre-emption plans) per new program; thorough: all plans of the original "
+                                       "programs, at most %d per new program (three-pre-emption plans first); failing-input search: "
+                                       "1500 / 400 per program, stops at the first violation"
+                                       % (budget // 2, budget // 2, max(12, budget // 4), THOROUGH_CAP_NEW))
         if full:
             res.extra["preempt_exhaustive"] = (
                 "every schedule with at most two pre-emptions (A a points, B b points, A to the end, B to the end; and B first) and every "
